@@ -80,7 +80,7 @@ func recvDeadline(useCtx bool) {
 		}
 		ep = endpoint{name: k.Name + ".ctx", set: c.SetOption,
 			recv: func() (string, error) { b, err := c.Recv(); return string(b), err },
-			send: func(b string) error { return c.Send([]byte(b)) }}
+			send: func(b string) error { return kit.SendBytes(c, []byte(b)) }}
 		x.Ctx = c
 		if viaSocket {
 			v, err := c.GetOption(mangos.OptionRecvDeadline)
